@@ -1,5 +1,5 @@
 (* C05 -- supported data round-trips exactly, and stably. *)
-From Skv Require Import CodecGuards CodecWitness CodecFacts.
+From Skv Require Import CodecGuards CodecWitness CodecShareFacts CodecFacts CodecRootFacts.
 From Gen Require Import Snapshot.
 From Coq Require Import Arith.
 
@@ -17,35 +17,34 @@ Definition C05_roundtrip_full_statement : Prop :=
     dn_cur D = Snapshot.current -> supported F v = true ->
     exists v', roundtrip Snapshot.registry Snapshot.current F D base v = Ok v' /\ show_val v' = show_val v.
 
-(* Proved fragment (structural induction on the value): JSON scalars surviving the JSON text codec
-   (scalar_rt_ok, decidable), arbitrarily nested list / tuple / set of exact builtin class, slices with
-   None/int/bool/str bounds, function (ufunc) and type names -- for values whose dumped ids are pairwise
-   distinct (ids_tree: no object met twice).  The state get_state emits is loaded by get_tree + construct
-   to exactly v, identity labels included.
-   Missing from the full statement: dict / OrderedDict / defaultdict (their key_types lists repeat the id of
-   each key type, so the loader meets memoised nodes: needs the global first-occurrence invariant of
-   LoadContext.memo), bytes / arrays / sparse / dtype / RNG / masked / partial / operator helpers (member-name
-   injectivity, nested observation values), object arrays, values with shared sub-objects, and the two root
-   fields protocol/_skops_version that _save appends (loads = root_tree + construct; here load_state takes the
-   protocol as an argument).  All of these are covered by the per-case evaluation `c05_case_same` and by the
-   correspondence with the implementation (harness/props/c05.py). *)
+(* Proved fragment (structural induction on the value + a global first-occurrence invariant of the loader's memo):
+   JSON scalars surviving the JSON text codec (scalar_rt_ok, decidable); arbitrarily nested list / tuple / set of exact
+   builtin class; dict / OrderedDict / defaultdict (factory a type or None) with str / int / float / numpy-number keys
+   whose JSON spellings are pairwise distinct and which k_type(key) maps back (incl. the key_types lists, whose repeated
+   type objects are met as memoised nodes); slices with None/int/bool/str bounds; function (ufunc) and type names;
+   attrgetter / itemgetter (operator helpers whose __reduce__ tuple the constructor accepts).
+   Sharing is arbitrary: any sub-object (and CPython's cached small ints, type objects, ...) may occur any number of
+   times (a DAG); the only requirement is that one label denotes one object (objs_wf: decidable).  The state get_state
+   emits is loaded by get_tree + construct to exactly v, identity labels included -- the same sharing.
+   c05_guard = fragb (the fragment) && objs_wf (labels) && need v <= default_fuel (nesting depth below the fuel).
+   Still missing from the full statement: bytes / arrays / sparse / dtype / RNG / masked arrays (file-bearing leaves:
+   the member lookup by name needs the injectivity of the id rendering -- proved in ShowFacts.v -- threaded through the
+   SaveContext), functools.partial and object arrays.  The statement is about the entry points: dumps_model (incl. the root
+   fields protocol/_skops_version of _save) does not raise and loads_model returns v.  The missing kinds are covered by the per-case evaluation `c05_case_same`
+   and by the correspondence with the implementation (harness/props/c05.py). *)
 Theorem C05_roundtrip_partial :
-  forall (D : denv) (F : cfacts) (C : cenv) (files : list (hkey * json)) (base : Z) (v : pval),
-    c_namedtuples C = f_namedtuples F /\ c_missing C = f_missing F ->
-    facts_sane F = true -> reg_ok (e_reg (c_env C)) (e_cur (c_env C)) = true ->
-    frag F v = true -> ids_tree D base v = true -> (need v <= default_fuel)%nat ->
-    cycle_state D C files base v = Ok v.
-Proof. exact frag_roundtrip. Qed.
+  forall (F : cfacts) (D : denv) (base : Z) (v : pval),
+    dn_cur D = Snapshot.current -> facts_sane F = true -> c05_guard F D base v = true ->
+    roundtrip Snapshot.registry Snapshot.current F D base v = Ok v.
+Proof. exact (fun F D base v H1 H2 H3 => root_roundtrip_total _ _ F D base v H1 C05_loaders_registered H2 H3). Qed.
 Print Assumptions C05_roundtrip_partial.
 
-(* k dump/load cycles (induction on k) *)
+(* k cycles of dumps / loads (induction on k) *)
 Theorem C05_stable_partial :
-  forall (D : denv) (F : cfacts) (C : cenv) (files : list (hkey * json)) (base : Z) (v : pval),
-    c_namedtuples C = f_namedtuples F /\ c_missing C = f_missing F ->
-    facts_sane F = true -> reg_ok (e_reg (c_env C)) (e_cur (c_env C)) = true ->
-    frag F v = true -> ids_tree D base v = true -> (need v <= default_fuel)%nat ->
-    forall k, cycles D C files base k v = Ok v.
-Proof. exact frag_stable. Qed.
+  forall (F : cfacts) (D : denv) (base : Z) (v : pval),
+    dn_cur D = Snapshot.current -> facts_sane F = true -> c05_guard F D base v = true ->
+    forall k, roundtrips Snapshot.registry Snapshot.current F D base k v = Ok v.
+Proof. exact (fun F D base v H1 H2 H3 => root_stable _ _ F D base v H1 C05_loaders_registered H2 H3). Qed.
 Print Assumptions C05_stable_partial.
 
 (* the fragment is contained in the property's grammar *)
@@ -55,14 +54,22 @@ Definition wfrag : pval :=
             PSlice 9 (BScalar (SInt 1)) (BScalar SNone) (BScalar (SInt 2));
             PFunc 10 (s "numpy") (s "sqrt"); PType 11 (s "builtins") (s "int");
             ptuple 12 [plist 13 []; PScalar 14 (SStr [233; 128512; 0; 34; 92]%N); PScalar 15 (SInt (10 ^ 40))]].
+(* a DAG: the list `sh` and the dict `d` occur several times; dict / OrderedDict / defaultdict with str, int, float and
+   numpy keys; the cached small int 1 and the type objects occur repeatedly *)
+Definition wshared : pval :=
+  let sh := plist 20 [pint 1; PScalar 21 (SFloat (s "2.5")); pstr_ 22 "x"] in
+  let d := pdict 23 [(kstr "a", sh); (kint 3, pint 1); (kfloat "1.5", PScalar 24 SNone); (knp64 4, sh)] in
+  ptuple 25 [sh; d; d;
+             PDict 26 (s "collections") (s "OrderedDict") [(kstr "b", d); (kstr "c", PSlice 27 (BScalar (SInt 1)) (BScalar SNone) (BScalar (SInt 2)))];
+             PDefDict 28 (s "collections") (s "defaultdict") (PType 902 (s "builtins") (s "int")) [(kint 1, sh); (kstr "k", PFunc 29 (s "numpy") (s "sqrt"))];
+             PSeq QSet 30 (s "builtins") (s "set") false [pint 7; pstr_ 31 "s"]; wfrag].
 Definition wC (a : archive) : cenv := cenv_of Snapshot.registry Snapshot.current wf a.
 
 (* non-vacuity: the hypotheses of C05_roundtrip_partial hold of a nested value, and the conclusion computes *)
 Example C05_nonvacuous :
-  frag wf wfrag = true /\ supported wf wfrag = true /\ ids_tree (wd Snapshot.current) wbase wfrag = true
-  /\ facts_sane wf = true /\ (need wfrag <= default_fuel)%nat
-  /\ roundtrip Snapshot.registry Snapshot.current wf (wd Snapshot.current) wbase wfrag = Ok wfrag.
-Proof. repeat split; try (vm_compute; reflexivity). apply Nat.leb_le. vm_compute. reflexivity. Qed.
+  c05_guard wf (wd Snapshot.current) wbase wshared = true /\ supported wf wshared = true /\ facts_sane wf = true
+  /\ roundtrip Snapshot.registry Snapshot.current wf (wd Snapshot.current) wbase wshared = Ok wshared.
+Proof. repeat split; vm_compute; reflexivity. Qed.
 
 (* the complete pipeline dumps -> schema.json -> get_tree -> construct on a value of the full grammar
    (dict / OrderedDict / defaultdict with str, int, float, numpy keys, shared list, set, bytes, slice, arrays,
